@@ -28,6 +28,15 @@ def any_sym(args, kwargs=None):
     return False
 
 
+def _dt(dtype):
+    """the builtin shadows used as dtypes (np.zeros(n, float)) mean the builtins"""
+    if dtype is sh_float:
+        return float
+    if dtype is sh_int:
+        return int
+    return dtype
+
+
 class _NdarrayMeta(type):
     def __instancecheck__(cls, obj):
         return isinstance(obj, (_np.ndarray, SArr))
@@ -200,6 +209,7 @@ class NpShim(object):
 
     @staticmethod
     def zeros(shape, dtype=float):
+        dtype = _dt(dtype)
         if any_sym((shape,)):
             use("np.zeros")
             if dtype in (bool, "bool"):
@@ -211,6 +221,7 @@ class NpShim(object):
 
     @staticmethod
     def ones(shape, dtype=float):
+        dtype = _dt(dtype)
         if any_sym((shape,)):
             use("np.ones")
             return _like_shape(shape, 1.0, "float")
@@ -218,6 +229,7 @@ class NpShim(object):
 
     @staticmethod
     def array(x, dtype=None, **k):
+        dtype = _dt(dtype)
         if isinstance(x, SArr):
             use("np.array")
             c = x.copy()
@@ -232,6 +244,7 @@ class NpShim(object):
 
     @staticmethod
     def asarray(x, dtype=None, **k):
+        dtype = _dt(dtype)
         if isinstance(x, SArr):
             use("np.asarray")
             # the underlying data of a (masked) array, without copying: same store, no mask
